@@ -269,8 +269,10 @@ def wrapper_of(model: SrcModel):
     wc = model.func(f"{SQLITE}.with_connection")
     import ast
     inner = [n for n in wc.node.body if isinstance(n, ast.FunctionDef)]
+    returned = [r.value.id for r in wc.node.body if isinstance(r, ast.Return) and isinstance(r.value, ast.Name)]
+    inner = [n for n in inner if n.name in returned] or inner
     if len(inner) != 1:
-        raise AnalysisError("with_connection no longer contains exactly one nested function")
+        raise AnalysisError("with_connection: cannot identify the wrapper function it returns")
     params = wc.params()
     if len(params) != 1:
         raise AnalysisError("with_connection no longer takes exactly the decorated function")
@@ -285,9 +287,13 @@ def install_decorator(mach: SqlMachine):
     def hook(I, fi, args, kwargs, node):
         raw = FuncRef(fi, raw=True)
         mach.ev("enter", fi.name, tuple(sorted(kwargs)))
-        closure = {fparam: raw, "__module__": wc.module.name}
         try:
-            return I.call_func(wrapper, args, kwargs, node, closure=closure, raw=True)
+            # run the decorator itself on the raw function (whatever it prepares at decoration time is prepared), then call
+            # the function it returns
+            wfun = I.call_func(wc, [raw], {}, node)
+            if not isinstance(wfun, FuncRef):
+                raise AnalysisError("with_connection does not return a function")
+            return I.call_func(wfun.fi, args, kwargs, node, closure=wfun.closure, raw=True)
         finally:
             mach.ev("exit", fi.name)
     I.decorator_hooks["with_connection"] = hook
